@@ -52,6 +52,18 @@ def main():
     os.makedirs(d, exist_ok=True)
     shutil.copy(a.diff, os.path.join(d, 'patch.diff'))
     shutil.copy(a.demo, os.path.join(d, 'demo.py'))
+    prev = None
+    mp = os.path.join(d, 'meta.json')
+    if os.path.exists(mp):
+        try:
+            old = json.load(open(mp))
+            prev = old.get('before_strengthening')
+            if prev is None and not (old.get('caught_by_quick') or old.get('caught_by_thorough')):
+                prev = {'verif_commit': old.get('verif_commit'), 'checks_quick': old.get('checks_quick'),
+                        'caught_by_quick': old.get('caught_by_quick'), 'caught_by_thorough': old.get('caught_by_thorough')}
+        except ValueError:
+            pass
+    head = subprocess.run(['git', '-C', ROOT, 'log', '--format=%h', '-n1'], capture_output=True, text=True).stdout.strip()
     meta = {
         'id': a.id, 'property': a.prop, 'what': a.what, 'needs_to_manifest': a.needs,
         'confirmed_in_scratch_worktree': {'ok': ok, 'lines': conf,
@@ -61,7 +73,10 @@ def main():
         'checks_thorough': None if thorough is None else thorough.get('checks', thorough),
         'caught_by_thorough': None if thorough is None else bool(thorough.get('caught')),
         'origin': 'written by a fresh sub-agent that saw only the property text and its own scratch worktree',
+        'verif_commit': head,
     }
+    if prev is not None:
+        meta['before_strengthening'] = prev
     json.dump(meta, open(os.path.join(d, 'meta.json'), 'w'), indent=1)
     print(json.dumps({k: meta[k] for k in ('caught_by_quick', 'caught_by_thorough', 'checks_quick')}, indent=1))
     return 0
